@@ -48,6 +48,10 @@ def gen_inner(rng: random.Random) -> dict:
         nodes.append({"kind": "ifelse", "name": "br", "params": [{"name": src}], "when_true": "pa", "when_false": "pb", "default_open": False, "decide": {"op": "mod", "choices": [True, False]}})
         nodes.append({"kind": "fn", "name": "pa", "params": [{"name": src}], "outs": ["pp"]})
         nodes.append({"kind": "fn", "name": "pb", "params": [{"name": src}], "outs": ["pq"]})
+    if rng.random() < 0.25:
+        # a node that mutates its list-valued signature default and returns a snapshot: every item is a run of its own,
+        # so every item starts from a fresh copy of the default - through runner.map and through a mapping node alike
+        nodes.append({"kind": "fn", "name": "md", "params": [{"name": mapped[0]}, {"name": "accd", "default": []}], "outs": ["md_o"], "beh": "snapshot", "beh_param": "accd"})
     order = list(range(len(nodes)))
     rng.shuffle(order)
     return {"name": "inner", "nodes": nodes, "order": order, "mapped": mapped, "bc": bc, "branch": branch}
